@@ -53,6 +53,24 @@ def gen_scenario(rng, cid):
     return vlib.Case(cid, "%d" % nthreads, ops, "scenario")
 
 
+def gen_stress(cid, nconn, nthreads):
+    """REVIEW_E-1: a busy server - many established connections, io threads, nothing in flight - is deleted from its base loop.
+    ~TcpServer's own first wakeup() lets an io thread swap between the hand-offs: the later hand-offs are dropped (F-25)"""
+    return vlib.Case(cid, "%d" % nthreads, ["C %d" % i for i in range(1, nconn + 1)] + ["SETTLE", "DESTROY", "SETTLE"], "stress")
+
+
+def stress_is_f25(case, msg):
+    """the only thing a stress case does is `delete server` with io threads and established, idle connections: a connection
+    destroyed while kConnected (the assert), or UP without DOWN / not destroyed / descriptor census off (asserts compiled out),
+    is the DOWN deficit of F-25 and nothing else"""
+    if case.tag != "stress" or int(case.header.split()[0]) < 1 or "DESTROY" not in case.ops:
+        return False
+    if any(op.split()[0] not in ("C", "SETTLE", "DESTROY") for op in case.ops):
+        return False
+    return ("state_ == kDisconnected" in msg or "DOWN x0" in msg or "not destroyed after DOWN" in msg or "object not destroyed" in msg
+            or "descriptor census" in msg or "closed while registered" in msg)
+
+
 def scenario_oracle(case, lines):
     res = []
     want = sum(1 for op in case.ops if op.startswith("C "))
@@ -218,8 +236,14 @@ def gen_sys_guided(mp, rng, cid, maxops=60):
             else:
                 cand.append(("XE %d %d" % (u, rng.choice([1, 1, 0])), 3.0))
         if dying:
+            # the destructor cannot be stopped: a case that ends here is finished by the tear-down.  Anything that queues a
+            # removeConnection hop / a forced close for one of its connections now is residue R-1 (H2 refuses the next step of
+            # the destructor, the real code runs on): the generator keeps to ops that do not close anything
+            closing = ("EV", "LFC", "LFCD", "DFIRE", "LSHUT")
+            cand = [(o, w) for (o, w) in cand if not (o.split()[0] in closing and not o.endswith("DATA"))
+                    and not (o.startswith("XB") and o.split()[3] in ("force", "forcedelay", "shutdown"))]
             cand.append(("SDESTROY", 4.0))
-        elif srv_alive and len(conns) >= 1 and (nio == 0 or io_quiet):
+        elif srv_alive and len(conns) >= 1 and (nio == 0 or io_quiet) and not calls:
             # (with io threads only while every io loop is in poll(): a hand-off behind a running batch is F-25 again)
             cand.append(("SDESTROY", 0.35))
         if cli_alive and not blocked:
@@ -460,6 +484,8 @@ def run(chk, replay=None):
             ccases.append(connlib.gen_case(chk.rng, "l%d" % i, "close", maxops=22))
         scen = [vlib.Case(c.cid, c.header, c.ops, "scenario") for c in connlib.load_cases(os.path.join(vlib.ROOT, "corpus", "C02", "scen", "*.scen"))]
         scen += [gen_scenario(chk.rng, "s%d" % i) for i in range(100 if quick else 1500)]
+        # the free-running stress of F-25 (timing decides whether it strikes: both outcomes are acceptable, nothing else is)
+        scen += [gen_stress("st%d" % i, 200, 1 + i % 2) for i in range(2 if quick else 10)]
         sysc = load_sys_cases(os.path.join(vlib.ROOT, "corpus", "C02", "sys", "*.sys"))
         mp = ModelProc(smodel)
         try:
@@ -591,22 +617,37 @@ def run(chk, replay=None):
 
     # ---- 3. free-running server scenarios
     fo, fcr = vlib.run_batch_parallel(sdrv, scen, timeout=1800, jobs=12)
+    stress_hits = []
     for c in scen:
         chk.cov["evaluations"] += 1
         if c.cid in fcr:
-            orc_bad.append((c, "scen", "server scenario crashed (rc=%s): %s" % (fcr[c.cid][0], next((l for l in fcr[c.cid][1].split("\n") if "Assertion" in l or "ERROR: AddressSanitizer" in l), fcr[c.cid][1][-300:])[:400])))
+            msg = "server scenario crashed (rc=%s): %s" % (fcr[c.cid][0], next((l for l in fcr[c.cid][1].split("\n") if "Assertion" in l or "ERROR: AddressSanitizer" in l), fcr[c.cid][1][-300:])[:400])
+            if stress_is_f25(c, msg) and "server-destroyed-while-io-loop-draining" in known:
+                stress_hits.append(c.cid)
+                chk.known("server-destroyed-while-io-loop-draining", "%s [stress case %s: %d established connections, %s io thread(s), delete server: %s]" %
+                          (known["server-destroyed-while-io-loop-draining"]["text"], c.cid, sum(1 for o in c.ops if o.startswith("C ")), c.header, msg[:200]))
+            else:
+                orc_bad.append((c, "scen", msg))
             continue
         lines = fo.get(c.cid)
         if lines is None:
             orc_bad.append((c, "scen", "no output"))
             continue
-        for msg in scenario_oracle(c, lines):
-            orc_bad.append((c, "scen", msg))
+        bad = scenario_oracle(c, lines)
+        if bad and all(stress_is_f25(c, m) for m in bad) and "server-destroyed-while-io-loop-draining" in known:
+            ups = sum(1 for l in lines if l.startswith("conn ") and "seq=Up" in l)
+            downs = sum(1 for l in lines if l.startswith("conn ") and "Down" in l)
+            stress_hits.append(c.cid)
+            chk.known("server-destroyed-while-io-loop-draining", "%s [stress case %s: ups=%d downs=%d]" %
+                      (known["server-destroyed-while-io-loop-draining"]["text"], c.cid, ups, downs))
+        else:
+            for msg in bad:
+                orc_bad.append((c, "scen", msg))
         sigs.add(("scen", c.header, tuple(c.ops)))
         if len(chk.cov["samples"]) < 4:
             chk.sample({"scenario": c.text().split("\n")[:-1], "report": lines[1:-1]})
     # ---- 3b. a part of the free-running scenarios again on PollPoller
-    pscen = [vlib.Case("p" + c.cid, c.header, c.ops, c.tag) for c in (scen if replay else scen[:30] if quick else scen[:600])]
+    pscen = [vlib.Case("p" + c.cid, c.header, c.ops, c.tag) for c in (scen if replay else scen[:30] if quick else scen[:600]) if c.tag != "stress"]
     if pscen:
         fo2, fcr2 = vlib.run_batch_parallel(sdrv, pscen, timeout=1800, jobs=12, env={"MUDUO_USE_POLL": "1"})
         for c in pscen:
@@ -621,6 +662,7 @@ def run(chk, replay=None):
             for msg in scenario_oracle(c, lines):
                 orc_bad.append((c, "scenpoll", "PollPoller: " + msg))
     chk.cov["pollpoller_scenarios"] = len(pscen)
+    chk.cov["stress_delete_server_with_io_threads"] = {"run": sum(1 for c in scen if c.tag == "stress"), "F-25 struck": stress_hits}
     chk.cov["distinct_nontrivial"] = len(sigs)
     chk.cov["lock_step_ops_accepted"] = sys_hist
     chk.cov["residue_witnesses_confirmed"] = residues
@@ -680,7 +722,7 @@ def run(chk, replay=None):
         "the theorems' environment hypotheses (strict mode of C02_Model.step): a foreign caller keeps its reference until its raw-this functor has run; the TcpServer object is not destroyed "
         "while a removeConnection hop or a forced close of one of its connections is in flight, nor does a peer close reach a connection of a destroyed server before its queued connectDestroyed; "
         "a foreign shutdown()/forceClose() whose state test passed does not overwrite kDisconnected at its setState (implied by Conn_Race.set_ok); a TcpClient is destroyed on its loop thread and "
-        "only when its connection has no transient holder; H7: no io loop is inside a drain (between the swap of doPendingFunctors and its next while(!quit_)) when ~TcpServer runs; H8: no user "
+        "only when its connection has no transient holder; H7: an io loop of a destroyed server does not leave loop() with a connectDestroyed/connectEstablished hand-off still queued (the negation of finding F-25; not establishable by a user for an io loop with two or more live connections); H8: no user "
         "reference / foreign call on a connection of an io loop is outstanding when that loop leaves loop()",
         "the base thread being blocked in join() during the pool's tear-down is not modelled (the model admits more schedules); the lock-step generator does not use them",
         "the free-running scenarios use real threads and the loopback; their oracle uses only schedule-independent facts"])
